@@ -54,6 +54,14 @@ CHECKS["C18"] = dict(level="model_checking", engine="tlc-trace",
    technique="TLC enumerates every single-variable loop of a bounded family (and samples two-variable loops over polyhedra, BD shapes, octagons); TermTrace.tla judges every verdict, witness and space with the definition of a ranking function on the verified generators of the relation, and refutes `false' verdicts by brute force",
    text="Loop relations generated by specs/term/TermHist.tla (model checking: all 1800 loops `while (g1 [and g2]) x' REL c*x+d` in the coefficient box; simulation: one- and two-variable loops as C/NNC polyhedra, rational BD shapes, octagons, with equalities, strict constraints, unbounded directions, empty relations) are run through all fourteen functions of the termination interface in both input forms. The specification verifies the relation's generators against its constraints with its own double description, then requires: returned functions and every generator-derived member of returned spaces are ranking functions (strict decrease on points, non-negative and non-increasing on rays, zero on lines), quasi-ranking spaces decrease / are bounded, test = witness = space-emptiness verdicts, MS = PR on closed relations, and no `false' when a ranking function with coefficients in -3..3 exists.",
    note="Trusted: TLC, PolySem double description, harness/term.cc. Bounds: n <= 2, |coeff| <= 3; completeness refuted only by small ranking functions. Known finding: PR_2 incompleteness when `before' is not the projection of the relation.", ref="§5 C18")
+CHECKS["C03"] = dict(level="model_checking", engine="tlc-trace",
+   technique="TLC-generated histories run on every instantiation of Box / BD_Shape / Octagonal_Shape; ShapeTrace.tla computes the exact result of each call on the denoted point sets and checks that each of its generators satisfies each constraint of the logged result, exactly (BigInt limbs for float and wide bounds)",
+   text="The polyhedron history generator in shape mode (template-direction constraints three times in four) drives pools of 3 elements of each of 27 instantiations (3 domains x mpq, mpz, int8..int64, float, double, long double; quick: 10 of them), including constructors from constraint / generator / congruence systems, from closed and NNC polyhedra at the three complexity classes and through every other shape domain. The specification keeps the verified (H,V) description of what each element denotes, recomputes every result from the definitions (images by Fourier-Motzkin, hulls from generators, differences by pieces...) and requires containment of the exact result, unchanged frames, no exception on well-formed calls, OK(), and true definite answers (emptiness, containment, disjointness, equality, universe).",
+   note="Trusted: TLC, specs/lib oracles, BigInt, harness/shape.cc, PPL's NNC_Polyhedron only to minimize the logged rows (its output is re-verified by SameSetHV). Bounds: dimension <= 3, |coeff| <= 3; an element with coefficients beyond 1e5 is judged as a result but is undecided as an argument; proper congruences and grid sources undecided.", ref="§5 C03")
+CHECKS["C04"] = dict(level="model_checking", engine="tlc-trace",
+   technique="same pipeline on the three rational instantiations; ShapeTrace.tla requires exact observers and, for the operations documented as exact or best, equality with Best(dom, E) = the intersection of the template half-spaces c.x <= sup_E c.x",
+   text="Rational_Box, BD_Shape<mpq_class>, Octagonal_Shape<mpq_class>: recipe histories (drivers x target operation) and free walks. Every observer answer (emptiness, universe, boundedness, containment, disjointness, equality, relations with constraints / congruences / generators, affine dimension, constrains, bounds, optima with witnesses, frequency, returned constraint systems) must be the exact answer for the denoted set; intersection, dimension changes, expressible affine (pre)images, upper bound, difference, unconstrain, constructors at unrestricted complexity and conversions must return the smallest enclosing element of the exact result, upper_bound_assign_if_exact must answer true exactly when the union is that element (Covers oracle); equal sets through different histories must compare equal.",
+   note="Trusted: as C03. Known finding: affine_preimage with an expression not mentioning the variable only forgets the variable. The Boolean of simplify_using_context_assign is not asserted (see DESIGN.md).", ref="§5 C04")
 NOT_YET = {}
 
 
